@@ -84,6 +84,8 @@ def run(ctx):
     ctx.do(rule_loop_flags_monotone, "C07.iterator-pitfalls", ("stix2.markings",))
     from .hidden_state import rule_no_hidden_state
     ctx.do(rule_no_hidden_state, "C07.history-independence")
+    from .pitfalls import rule_loops_not_cut_short
+    ctx.do(rule_loops_not_cut_short, "C07.loops-complete")
 
 
 def rule_dispatch(ctx):
